@@ -124,7 +124,7 @@ def cases(rng, tier, stats):
         if e1[1] != "ok":
             skipped += 1
             continue
-        lines = [run_req(s1, spec=1, gc="never"), run_req(s2, spec=1, gc="never"), run_req(s1 + s2, spec=1, gc="never")]
+        lines = [run_req(s1, spec=1), run_req(s2, spec=1), run_req(s1 + s2, spec=1)]
         out.append(C.Case("compose", lines, cmp_run(line=True), compose_oracle, info={"p1": s1, "p2": s2, "p1_lines": s1.count("\n")}))
     stats["pairs"] = len(out)
     stats["pairs_skipped_p1_fails"] = skipped
